@@ -150,6 +150,9 @@ def h_dmrg_args(V):
 import contracts.mps_values as MV
 from contracts.mps_values import h_pbc_values, h_mpo_mpo_values, h_complex_values, h_reverse_values, h_env3_refresh, h_overlap_values, h_mpo_values, h_env3_values, h_env_sum_project_values, h_measure_values
 FUNCTIONS = list(FUNCTIONS) + [f_ for f_ in MV.FUNCTIONS if f_ not in FUNCTIONS]
+import contracts.alg_bounded as AB
+from contracts.alg_bounded import h_dmrg_numeric
+BOUNDED_HARNESSES = {'h_dmrg_numeric'}
 
 
 def units(tier):
@@ -166,4 +169,5 @@ def units(tier):
                         U.append(('h_dmrg_driver', f"{method},N={N},max_sweeps={max_sweeps},tol={with_tol},iterator_step={it}",
                                   dict(method=method, N=N, max_sweeps=max_sweeps, with_tol=with_tol, iterator_step=it)))
     U.append(('h_dmrg_args', 'x', {}))
+    U = U + AB.units_c09(tier)
     return U
